@@ -29,6 +29,25 @@ def check_c15(case, ctx):
     explicit = rate_values(cfg, teams, dict(outcome, tau=cfg["tau"], limit_sigma=cfg["limit_sigma"]), ctx)
     _cmp(plain, explicit, "omitted-vs-explicit" + (":tau0" if cfg["tau"] == 0 else ""), "rate(g) vs rate(g, tau=model.tau, limit_sigma=model.limit_sigma)")
 
+    # the documented parameter ORDER: rate(teams, ranks, scores, tau, limit_sigma) and Model(mu, sigma, beta, kappa, gamma, tau, limit_sigma)
+    # passed positionally mean the same as passed by keyword
+    from vf.osk import GAMMAS, classes, mk_model, mk_teams, vals
+
+    if t is not None or b is not None:
+        m_kw = mk_model(cfg)
+        kw_res = vals(m_kw.rate(mk_teams(m_kw, teams), ranks=outcome.get("ranks"), scores=outcome.get("scores"), tau=t, limit_sigma=b))
+        m_pos = mk_model(cfg)
+        pos_res = vals(m_pos.rate(mk_teams(m_pos, teams), outcome.get("ranks"), outcome.get("scores"), t, b))
+        ctx.called(2)
+        _cmp(pos_res, kw_res, "positional-rate-arguments", f"rate(teams, ranks, scores, {t!r}, {b!r}) positionally vs by keyword")
+    cls = classes()[cfg["kind"]]
+    gfun = GAMMAS[cfg["gamma"]] if cfg.get("gamma", "default") != "default" else None
+    if gfun is not None:
+        m_posc = cls(cfg["mu"], cfg["sigma"], cfg["beta"], cfg["kappa"], gfun, cfg["tau"], cfg["limit_sigma"])
+        posc = vals(m_posc.rate(mk_teams(m_posc, teams), **{k: v for k, v in outcome.items()}))
+        ctx.called()
+        _cmp(posc, plain, "positional-constructor-arguments", "Model(mu, sigma, beta, kappa, gamma, tau, limit_sigma) positionally vs by keyword")
+
     nt = False
     if t is not None:
         per_call = rate_values(cfg, teams, dict(outcome, tau=t), ctx)
